@@ -31,7 +31,13 @@ RULE = (
     'fresh subprocess; (compute-hist) every computational entry point (conversion kernels, cylinder quadrature / volume / '
     'intersection, transmission map, attenuation, disk chopper offsets, frame sequences, fit_peaks / remove_peaks, model '
     'calls, xye and CIF writers) with three argument sets (float64 / float32 / other unit, or three different objects) in '
-    'the orders 1,0,2,1,0, each result compared bit for bit with the same call in a process that made no other call. (ir) the analysis of every translated function is re-run through the Lean driver for every '
+    'the orders 1,0,2,1,0, each result compared bit for bit with the same call in a process that made no other call; (handed-out) every public '
+    'property / zero-argument method (enumerated with dir()) of instances of every long-lived class (models, FitResult, Atom, '
+    'ScatteringParams, Material, Cylinder, DiskChopper, Chopper, Subframe, Frame, FrameSequence, CIF, Block, Chunk, Loop): the '
+    'returned value and its elements mutated in every way the type allows, then every attribute and the computations of the '
+    'object compared with an untouched instance (plain stored fields of records are skipped and counted); (earlier-result) '
+    'scripted sequences on chopper cascades, CIF builders and models with snapshots of every previously returned object '
+    'after every later call. (ir) the analysis of every translated function is re-run through the Lean driver for every '
     'configuration and compared with the Python mirror; concrete runs of the heap semantics are compared with the '
     'analysis. distinct = distinct (function, configuration) / history.'
 )
@@ -1127,6 +1133,375 @@ def run_compute_histories(ctx, deep, only=None):
                        {'kind': 'compute-history', 'function': label, 'after': list(prev), 'argument_set': k})
             prev.append(k)
 
+
+# =================================================================================================
+# objects handed out by properties / methods of long-lived objects must not alias internal state
+# =================================================================================================
+
+HANDED_OUT_DENY = {
+    # mutators, writers and plotting: not "obtain a value" operations
+    'add', 'save', 'write', 'create', 'draw', 'acceptance_diagram', 'make_svg', 'report', 'clear', 'pop',
+    'add_empty_detector_params', 'add_default_instrument', 'add_default_sample', 'add_empty_dnd_data', 'add_pixel_data',
+    'register', 'from_nexus',
+}
+
+
+def handed_out_classes():
+    """[(class label, make() -> fresh instance, extra(instance) -> further computations of the object)]"""
+    import numpy as np
+    import scipp as sc
+    from scippneutron.absorption.cylinder import Cylinder
+    from scippneutron.absorption.material import Material
+    from scippneutron.atoms import Atom, ScatteringParams
+    from scippneutron.chopper import DiskChopper
+    from scippneutron.io import cif
+    from scippneutron.peaks import FitParameters, FitRequirements, fit_peaks
+    from scippneutron.peaks import model as M
+    from scippneutron.tof import chopper_cascade as cc
+
+    x = sc.array(dims=['x'], values=np.linspace(1.0, 5.0, 9), unit='angstrom')
+
+    def call_model(m):
+        """evaluate the model with exactly the parameters it says it has; also as part of a composite"""
+        vals = {'amplitude': sc.scalar(3.0, unit='angstrom'), 'loc': sc.scalar(3.0, unit='angstrom'), 'scale': sc.scalar(0.4, unit='angstrom'),
+                'fraction': sc.scalar(0.3), 'a0': sc.scalar(1.0), 'a1': sc.scalar(0.5, unit='1/angstrom'), 'a2': sc.scalar(0.1, unit='1/angstrom**2')}
+
+        def params(model):
+            return {n: vals[n.rsplit('_', 1)[-1]] for n in sorted(model.param_names)}
+
+        def safe(f):
+            try:
+                return f()
+            except Exception as e:  # noqa: BLE001
+                return 'raised:' + type(e).__name__
+        other = M.PolynomialModel(degree=1, prefix='other_')
+        return (safe(lambda: m(x, **params(m))), safe(lambda: sorted((other + m).param_names)),
+                safe(lambda: (other + m)(x, **params(other + m))), safe(lambda: sorted(m.with_prefix('w_').param_names)),
+                safe(lambda: sorted(m.param_bounds.items())))
+
+    def spectrum():
+        rs = np.random.default_rng(7)
+        xs = np.linspace(0.5, 10, 100)
+        y = 5 + 0.3 * xs + 40 * np.exp(-(xs - 4) ** 2 / (2 * 0.2 ** 2))
+        yn = rs.poisson(y * 20) / 20.0
+        return sc.DataArray(sc.array(dims=['x'], values=yn, variances=np.maximum(yn, 1) / 20, unit='counts'),
+                            coords={'x': sc.array(dims=['x'], values=xs, unit='angstrom')})
+
+    fit_cache = {}
+
+    def fit_result():
+        import copy
+
+        if 'r' not in fit_cache:
+            fit_cache['r'] = fit_peaks(spectrum(), peak_estimates=sc.array(dims=['x'], values=[4.0], unit='angstrom'),
+                                       windows=sc.scalar(2.0, unit='angstrom'), background='linear', peak='gaussian')[0]
+        return copy.deepcopy(fit_cache['r'])
+
+    def disk():
+        return DiskChopper(axle_position=sc.vector([0.0, 0.0, 6.0], unit='m'), frequency=sc.scalar(14.0, unit='Hz'),
+                           beam_position=sc.scalar(0.3, unit='rad'), phase=sc.scalar(0.5, unit='rad'),
+                           slit_begin=sc.array(dims=['slit'], values=[0.0, 1.0, 2.5], unit='rad'),
+                           slit_end=sc.array(dims=['slit'], values=[0.5, 1.6, 3.0], unit='rad'),
+                           slit_height=sc.array(dims=['slit'], values=[0.1, 0.1, 0.1], unit='m'), radius=sc.scalar(0.4, unit='m'))
+
+    def chopper(d=6.0):
+        return cc.Chopper(distance=sc.scalar(d, unit='m'), time_open=sc.array(dims=['cutout'], values=[0.001, 0.009], unit='s'),
+                          time_close=sc.array(dims=['cutout'], values=[0.004, 0.012], unit='s'))
+
+    def frames():
+        fs = cc.FrameSequence.from_source_pulse(time_min=sc.scalar(0.0, unit='ms'), time_max=sc.scalar(3.0, unit='ms'),
+                                                wavelength_min=sc.scalar(0.5, unit='angstrom'), wavelength_max=sc.scalar(8.0, unit='angstrom'))
+        return fs.chop([chopper(6.0), chopper(8.0)])
+
+    def cyl():
+        return Cylinder(symmetry_line=sc.vector([0.0, 0.6, 0.8]), center_of_base=sc.vector([0.0, -5.0, 0.0], unit='mm'),
+                        radius=sc.scalar(2.0, unit='mm'), height=sc.scalar(10.0, unit='mm'))
+
+    def cif_text(c):
+        b = io.StringIO()
+        (c.save(b) if hasattr(c, 'save') else c.write(b))
+        return '\n'.join(line for line in b.getvalue().split('\n') if 'creation_date' not in line)
+
+    def mkloop():
+        return cif.Loop({'_pd_x': sc.arange('r', 3.0), '_pd_y': sc.arange('r', 3.0) * 2}, schema=cif.PD_SCHEMA if hasattr(cif, 'PD_SCHEMA') else None)
+
+    def mkchunk():
+        return cif.Chunk({'_a': 1, '_b': 'text'}, comment='c', schema=cif.CORE_SCHEMA if hasattr(cif, 'CORE_SCHEMA') else None)
+
+    return [
+        ('GaussianModel', lambda: M.GaussianModel(prefix='g_'), call_model),
+        ('LorentzianModel', lambda: M.LorentzianModel(prefix='l_'), call_model),
+        ('PseudoVoigtModel', lambda: M.PseudoVoigtModel(prefix='v_'), call_model),
+        ('PolynomialModel', lambda: M.PolynomialModel(degree=2, prefix='p_'), call_model),
+        ('CompositeModel', lambda: M.PolynomialModel(degree=1, prefix='b_') + M.GaussianModel(prefix='k_'), call_model),
+        ('FitResult', fit_result, lambda r: (r.eval_model(x), r.eval_peak(x), r.success)),
+        ('FitParameters', FitParameters, lambda o: None),
+        ('FitRequirements', FitRequirements, lambda o: None),
+        ('Atom', lambda: Atom.for_isotope('2H'), lambda a: (Atom.for_isotope('2H'), a == Atom.for_isotope('2H'))),
+        ('ScatteringParams', lambda: ScatteringParams.for_isotope('V'), lambda p_: ScatteringParams.for_isotope('V')),
+        ('Material', lambda: Material(scattering_params=ScatteringParams.for_isotope('V'), effective_sample_number_density=sc.scalar(0.07, unit='1/angstrom**3')),
+         lambda m: m.attenuation_coefficient(sc.array(dims=['w'], values=[1.0, 2.0], unit='angstrom'))),
+        ('Cylinder', cyl, lambda c: (c.quadrature('cheap'), c.beam_intersection(sc.vector([0.1, 0.2, 0.3], unit='mm'), sc.vector([0.0, 0.0, 1.0])))),
+        ('DiskChopper', disk, lambda d: (d.time_offset_open(pulse_frequency=sc.scalar(14.0, unit='Hz')),
+                                         d.time_offset_close(pulse_frequency=sc.scalar(14.0, unit='Hz')), d.open_duration(pulse_frequency=sc.scalar(14.0, unit='Hz')))),
+        ('Chopper', chopper, lambda c: None),
+        ('Subframe', lambda: frames()[-1].subframes[0], lambda s_: s_.propagate_by(sc.scalar(1.0, unit='m'))),
+        ('Frame', lambda: frames()[-1], lambda f: (f.propagate_to(sc.scalar(12.0, unit='m')), f.chop(chopper(11.0)))),
+        ('FrameSequence', frames, lambda fs: (fs.propagate_to(sc.scalar(12.0, unit='m')), fs.chop([chopper(11.0)]))),
+        ('CIF', lambda: cif.CIF('blk', comment='c').with_reducers('r1'), lambda c: (cif_text(c), cif_text(c.copy()), cif_text(c.with_reducers('r2')))),
+        ('Block', lambda: cif.Block('b', [mkchunk(), mkloop()], comment='bc'), lambda b: (cif_text(b), cif_text(b.copy()))),
+        ('Chunk', mkchunk, lambda c: (cif_text(c), cif_text(cif.Block('x', [c])), sorted(map(str, cif.Block('x', [c]).schema)))),
+        ('Loop', mkloop, lambda l_: (cif_text(l_), cif_text(cif.Block('x', [l_])), sorted(map(str, cif.Block('x', [l_]).schema)))),
+    ]
+
+
+def _is_plain_field(obj, name):
+    """the attribute is stored state of a record (instance dict / slot / dataclass field), not computed access"""
+    cls_attr = getattr(type(obj), name, None)
+    if isinstance(cls_attr, property):
+        return False
+    if callable(cls_attr) and not isinstance(cls_attr, type):
+        return False
+    return True
+
+
+def _obtain(obj, name):
+    """(kind, value) for public attribute `name`: property / field value, or the result of a zero-argument method"""
+    import inspect
+
+    cls_attr = getattr(type(obj), name, None)
+    if isinstance(cls_attr, property) or not callable(getattr(obj, name)):
+        return 'attr', getattr(obj, name)
+    meth = getattr(obj, name)
+    try:
+        sig = inspect.signature(meth)
+    except (TypeError, ValueError):
+        return 'skip', None
+    if any(p.default is inspect.Parameter.empty and p.kind in (p.POSITIONAL_ONLY, p.POSITIONAL_OR_KEYWORD, p.KEYWORD_ONLY)
+           for p in sig.parameters.values()):
+        return 'skip', None
+    return 'call', meth()
+
+
+def mutations_of(v):
+    """[(label, function mutating v in place)] — every way the type allows"""
+    import numpy as np
+    import scipp as sc
+
+    out = []
+    if isinstance(v, set):
+        out += [('set.add', lambda s_: s_.add('poison')), ('set|=', lambda s_: s_.__ior__({'poison1', 'poison2'})), ('set.clear', lambda s_: s_.clear()),
+                ('set.pop', lambda s_: s_.pop())]
+    elif isinstance(v, dict):
+        out += [('dict[k]=', lambda d: d.__setitem__('poison', 1)), ('dict.clear', lambda d: d.clear()),
+                ('del dict[first]', lambda d: d.__delitem__(next(iter(d)))), ('dict[first]=', lambda d: d.__setitem__(next(iter(d)), 'poison'))]
+    elif isinstance(v, list):
+        out += [('list.append', lambda l_: l_.append('poison')), ('list.reverse', lambda l_: l_.reverse()), ('list.clear', lambda l_: l_.clear()),
+                ('del list[0]', lambda l_: l_.__delitem__(0))]
+    elif isinstance(v, np.ndarray):
+        out += [('ndarray[...]=', lambda a: a.__setitem__(Ellipsis, 0))]
+    elif isinstance(v, sc.Variable):
+        def imul(var):
+            var *= 2.0
+
+        def setvalues(var):
+            if var.ndim == 0:
+                var.value = var.value * 0 + 123
+            else:
+                var.values = var.values * 0 + 123
+
+        def setunit(var):
+            var.unit = 'kg'
+        out += [('Variable*=2', imul), ('Variable.value(s)=', setvalues), ('Variable.unit=', setunit)]
+    elif isinstance(v, sc.DataArray):
+        def da_imul(d):
+            d *= 2.0
+
+        def da_coord(d):
+            d.coords['poison'] = sc.scalar(1.0)
+        out += [('DataArray*=2', da_imul), ('DataArray.coords[]=', da_coord)]
+    elif isinstance(v, sc.DataGroup | sc.Dataset):
+        out += [('group[k]=', lambda g: g.__setitem__('poison', sc.scalar(1.0)))]
+    return out
+
+
+def _elements(v):
+    """mutable elements one level down (list of subframes, dict of Variables, tuple of results …)"""
+    import scipp as sc
+
+    if isinstance(v, list | tuple):
+        return [(f'[{i}]', e) for i, e in enumerate(v)][:3]
+    if isinstance(v, dict | sc.DataGroup):
+        return [(f'[{k!r}]', e) for k, e in list(v.items())[:3]]
+    return []
+
+
+def run_handed_out(ctx, deep, only=None):
+    """for every public attribute / property / zero-argument method of every long-lived class: obtain the value, mutate it in
+    every way its type allows, then the attribute re-obtained and the object's computations must be what they are for an
+    untouched instance"""
+    import warnings
+
+    warnings.simplefilter('ignore')
+
+    def observe(label, obj, extra):
+        names = [n for n in dir(obj) if not n.startswith('_') and n not in HANDED_OUT_DENY]
+        res = {}
+        for n in names:
+            try:
+                kind, val = _obtain(obj, n)
+                res[n] = repr(snap(val)) if kind != 'skip' else 'skip'
+            except Exception as e:  # noqa: BLE001
+                res[n] = 'raised:' + type(e).__name__
+        try:
+            res['<computations>'] = repr(snap(extra(obj)))
+        except Exception as e:  # noqa: BLE001
+            res['<computations>'] = 'raised:' + type(e).__name__
+        return res
+
+    for label, make, extra in handed_out_classes():
+        try:
+            pristine = observe(label, make(), extra)
+            if pristine != observe(label, make(), extra):
+                ctx.count('handed-out:not-reproducible:' + label)
+                continue
+        except Exception as e:  # noqa: BLE001
+            ctx.note(f'handed-out: cannot build {label}: {type(e).__name__}: {e}')
+            ctx.count('handed-out:cannot-build:' + label)
+            continue
+        probe = make()
+        for name in [n for n in dir(probe) if not n.startswith('_') and n not in HANDED_OUT_DENY]:
+            if only is not None and f'{label}.{name}' != only:
+                continue
+            try:
+                kind, val = _obtain(probe, name)
+            except Exception:  # noqa: BLE001
+                continue
+            if kind == 'skip':
+                ctx.count('handed-out:skipped:method-with-arguments')
+                continue
+            if kind == 'attr' and _is_plain_field(probe, name):
+                # stored state of a (data)class record: the attribute IS the state, assigning to / through it is the record's interface
+                ctx.count('handed-out:skipped:plain-field-of-record')
+                continue
+            targets = [('', val)] + _elements(val)
+            for sub, tv in targets:
+                muts = mutations_of(tv)
+                if not muts:
+                    ctx.count('handed-out:immutable-value')
+                    continue
+                for mlabel, mut in muts:
+                    obj = make()
+                    try:
+                        _, v = _obtain(obj, name)
+                        for subl, e in [('', v)] + _elements(v):
+                            if subl == sub:
+                                target = e
+                                break
+                        else:
+                            continue
+                        mut(target)
+                    except Exception:  # noqa: BLE001
+                        ctx.count('handed-out:mutation-not-applicable')
+                        continue
+                    after = observe(label, obj, extra)
+                    ctx.case(('handed-out', label, name, sub, mlabel), True,
+                             sample={'op': 'handed-out', 'class': label, 'attribute': name + sub, 'mutation': mlabel})
+                    ctx.count('handed-out:' + label)
+                    diff = [k for k in pristine if after.get(k) != pristine[k]]
+                    if diff:
+                        owner = next((c.__name__ for c in type(obj).__mro__ if name in vars(c)), label)
+                        report(ctx, f'C09:handed-out-object-aliases-internal:{owner}.{name}',
+                               f'{label}.{name}{sub}: after {mlabel} on the returned object, {diff[:4]} of the same {label} differ from an untouched instance',
+                               {'kind': 'handed-out', 'attribute': f'{label}.{name}', 'element': sub, 'mutation': mlabel, 'changed': diff[:6]})
+
+
+# =================================================================================================
+# results returned earlier must not change when the objects are used again
+# =================================================================================================
+
+def earlier_result_scenarios():
+    """[(scenario label, [(step label, step(state) -> new object or None)])]; every object returned by a step is kept and
+    snapshotted; after every later step all kept objects must be unchanged"""
+    import scipp as sc
+    from scippneutron.io import cif
+    from scippneutron.peaks import model as M
+    from scippneutron.tof import chopper_cascade as cc
+
+    def chopper(d, shift=0.0, unit='m'):
+        return cc.Chopper(distance=sc.scalar(d, unit='m').to(unit=unit), time_open=sc.array(dims=['cutout'], values=[0.001 + shift, 0.009], unit='s'),
+                          time_close=sc.array(dims=['cutout'], values=[0.004, 0.012 + shift], unit='s'))
+
+    def source(st):
+        return cc.FrameSequence.from_source_pulse(time_min=sc.scalar(0.0, unit='ms'), time_max=sc.scalar(3.0, unit='ms'),
+                                                  wavelength_min=sc.scalar(0.5, unit='angstrom'), wavelength_max=sc.scalar(8.0, unit='angstrom'))
+    out = []
+    for unit in ('m', 'mm'):
+        out.append((f'chopper cascade [{unit}]', [
+            ('FrameSequence.from_source_pulse', source),
+            ('FrameSequence.chop', lambda st: st[0].chop([chopper(6.0, unit=unit)])),
+            # a chopper at exactly the distance of the last frame, in a second chop() call
+            ('FrameSequence.chop', lambda st: st[1].chop([chopper(6.0, 0.0005, unit=unit)])),
+            # alternative choppers tried on one frame sequence
+            ('FrameSequence.chop', lambda st: st[1].chop([chopper(6.0, 0.001, unit=unit)])),
+            ('FrameSequence.chop', lambda st: st[1].chop([chopper(7.0, unit=unit), chopper(6.0, 0.0015, unit=unit)])),
+            ('FrameSequence.propagate_to', lambda st: st[1].propagate_to(sc.scalar(6.0, unit='m').to(unit=unit))),
+            ('FrameSequence.propagate_to', lambda st: st[2].propagate_to(sc.scalar(9.0, unit='m').to(unit=unit))),
+            ('Frame.propagate_to', lambda st: st[1][-1].propagate_to(st[1][-1].distance)),
+            ('Frame.chop', lambda st: st[1][-1].chop(chopper(6.0, 0.002, unit=unit))),
+            ('Frame.chop', lambda st: st[7].chop(chopper(6.0, 0.0025, unit=unit))),
+            ('Subframe.propagate_by', lambda st: st[1][-1].subframes[0].propagate_by(sc.scalar(0.0, unit='m'))),
+            ('Frame.bounds', lambda st: (st[1][-1].bounds(), st[1][-1].subbounds())),
+        ]))
+    out.append(('CIF builders', [
+        ('CIF', lambda st: cif.CIF('base', comment='c')),
+        ('CIF.with_reducers', lambda st: st[0].with_reducers('r1')),
+        ('CIF.with_reducers', lambda st: st[1].with_reducers('r2')),
+        ('CIF.copy', lambda st: st[1].copy()),
+        ('CIF.with_authors', lambda st: st[3].with_authors()),
+        ('save_cif', lambda st: cif.save_cif(io.StringIO(), st[1], comment='per call')),
+        ('CIF.save', lambda st: st[2].save(io.StringIO())),
+    ]))
+    out.append(('models', [
+        ('GaussianModel', lambda st: M.GaussianModel(prefix='g_')),
+        ('PolynomialModel', lambda st: M.PolynomialModel(degree=1, prefix='b_')),
+        ('Model.__add__', lambda st: st[1] + st[0]),
+        ('Model.with_prefix', lambda st: st[2].with_prefix('c_')),
+        ('Model.with_prefix', lambda st: st[0].with_prefix('h_')),
+        ('Model.__add__', lambda st: st[4] + st[1]),
+        ('Model.param_names', lambda st: (st[2].param_names, st[3].param_bounds)),
+    ]))
+    return out
+
+
+def run_earlier_results(ctx, deep, only=None):
+    import warnings
+
+    warnings.simplefilter('ignore')
+    for scen, steps in earlier_result_scenarios():
+        if only is not None and scen != only:
+            continue
+        kept = []       # (index, step label, object, snapshot)
+        state = []
+        for i, (slabel, step) in enumerate(steps):
+            try:
+                obj = step(state)
+            except Exception as e:  # noqa: BLE001
+                obj = None
+                ctx.count('earlier-result:step-raised:' + type(e).__name__)
+            state.append(obj)
+            ctx.case(('earlier-result', scen, i), True, sample={'op': 'earlier-result', 'scenario': scen, 'step': i, 'call': slabel} if i == 2 else None)
+            ctx.count('earlier-result:' + scen.split(' [')[0])
+            for j, jl, o, before in kept:
+                now = snap(o)
+                if now != before:
+                    report(ctx, f'C09:earlier-result-modified:{slabel}',
+                           f'{scen}: step {i} ({slabel}) changed the object returned by step {j} ({jl}): {first_diff(before, now)}',
+                           {'kind': 'earlier-result', 'scenario': scen, 'step': i, 'changed_step': j})
+                    kept[kept.index((j, jl, o, before))] = (j, jl, o, now)
+            if obj is not None:
+                kept.append((i, slabel, obj, snap(obj)))
+
 # =================================================================================================
 # translated IR: Lean analysis vs Python mirror; concrete runs vs analysis
 # =================================================================================================
@@ -1200,6 +1575,8 @@ def oracle(ctx, deep):
     run_calls(ctx, deep)
     run_histories(ctx, deep)
     run_compute_histories(ctx, deep)
+    run_handed_out(ctx, deep)
+    run_earlier_results(ctx, deep)
 
 
 def replay(ctx, payload):
@@ -1216,6 +1593,10 @@ def replay(ctx, payload):
                 break
         else:
             print('configuration not found in the call table')
+    elif w.get('kind') == 'handed-out':
+        run_handed_out(ctx, True, only=w['attribute'])
+    elif w.get('kind') == 'earlier-result':
+        run_earlier_results(ctx, True, only=w['scenario'])
     elif w.get('kind') == 'compute-history':
         run_compute_histories(ctx, True, only=w['function'])
     elif w.get('kind') == 'hist':
